@@ -106,6 +106,16 @@ class Interp(object):
       last = d.split('.')[-1]
       if '.' in d and last in self.enum_names:
         return V(last)
+      # a module-level constant (tuple / list of literals, a literal)
+      cst = getattr(fn.module, 'constants', {}).get(d) if '.' not in d \
+          else None
+      if cst is not None and cst is not e and isinstance(
+          cst, (ast.Tuple, ast.List, ast.Constant)):
+        try:
+          ast.literal_eval(cst)          # literals only
+          return self.val(fn, cst, env)
+        except (ValueError, SyntaxError, TypeError):
+          pass
       return V(UNK)
     if isinstance(e, ast.UnaryOp):
       v = self.val(fn, e.operand, env)
